@@ -20,7 +20,7 @@ pub struct C02;
 
 // PT role: every shipped command type on the receiving end. Types sharing a
 // control field sit in different enums.
-#[derive(ZvtEnum)]
+#[derive(ZvtEnum, Debug)]
 #[allow(clippy::large_enum_variant, dead_code)]
 pub enum AnyA {
     SetTimeAndDate(packets::SetTimeAndDate),
@@ -51,7 +51,7 @@ pub enum AnyA {
     CVendFunctions(feig::packets::CVendFunctions),
 }
 
-#[derive(ZvtEnum)]
+#[derive(ZvtEnum, Debug)]
 #[allow(dead_code)]
 pub enum AnyB {
     ReceiptPrintoutCompletion(packets::ReceiptPrintoutCompletion),
@@ -59,7 +59,7 @@ pub enum AnyB {
     WriteData(feig::packets::WriteData),
 }
 
-#[derive(ZvtEnum)]
+#[derive(ZvtEnum, Debug)]
 #[allow(dead_code)]
 pub enum AnyC {
     Enhanced(feig::packets::CVendFunctionsEnhancedSystemInformationCompletion),
